@@ -2,7 +2,7 @@
 import rpcflow
 
 SUB = "c11"
-MODULES = ["Mtv.Props.C11"]
+MODULES = ["Mtv.Props.C11", "Mtv.Props.ClientImpl"]
 THEOREMS = [
     "Mtv.Client.salt_adopted",
     "Mtv.Client.new_session_salt_adopted",
@@ -13,13 +13,23 @@ THEOREMS = [
     "Mtv.Client.resend_uses_new_salt",
     "Mtv.Client.never_stalls",
     "Mtv.Client.answered_after_rotation",
+    # the goroutine-level model and its refinement of the machine above (Props/ClientImpl.lean)
+    "Mtv.Impl.impl_refines_spec",
+    "Mtv.Impl.impl_matches_source",
+    "Mtv.Impl.impl_order_matches_source",
+    "Mtv.Impl.recv_flatten",
+    "Mtv.Impl.impl_refinement_needs_causal_server",
+    "Mtv.Impl.impl_resend_exactly_rejected",
+    "Mtv.Impl.impl_never_wedged",
+    "Mtv.Impl.impl_progress",
+    "Mtv.Impl.impl_wedge_needs_acausal_server",
 ]
 RULE = ('scenarios with 1..6 (thorough 12) pending requests and 1..4 rotations: bad_server_salt for a random unanswered request (the same request may be rejected repeatedly), other requests answered before or after, new_session_created in between; checks: only the rejected request is written again and under the new salt, accepted requests appear once, every call returns its own answer, the run completes (no stall), the store received every adopted salt in order. Announced salts REPEAT earlier values in about half of the random scenarios and in fixed ones (the scenarios start from a stored session with salt 1000): back to the salt of the stored session after another one, A -> B -> A, the same salt twice in a row, the stored salt announced first, zero, negative values, the extremes of int64, by bad_server_salt and by new_session_created - every adopted salt must reach the store, in order. About half of the scenarios run on the FILE session store (session.NewFromFile on a file left by an earlier run, modification time an hour ago) instead of the in-memory store of the harness: after every Store an independent reader of the harness reads the salt back from the file, and only what it finds there counts as written — two and more announcements per run (rotations, new_session_created, both), with an injected refusal or a slow write in between. distinct = distinct scenarios')
 
 
 def run(ctx):
     ctx.assumptions += ["the Go runtime's scheduling during a run decides the interleaving actually exercised (sampled, not enumerated)", 'warnings are drained by the harness (a full user warning channel would block the receive loop: environment assumption)']
-    return rpcflow.run(ctx, SUB, MODULES, THEOREMS, RULE)
+    return rpcflow.run(ctx, SUB, MODULES, THEOREMS, RULE, gen_hook=rpcflow.regen_skeleton)
 
 
 def replay(ctx, path):
